@@ -380,7 +380,7 @@ def minimal_condition(feats, failing, passing):
     return None
 
 
-def judge_builds(chk, tasks, feats_of):
+def judge_builds(chk, tasks, feats_of, condition=None):
     for lib in ORDER:
         mine = [t for t in tasks if t.kind == 'check' and t.lib == lib]
         passing = [set(t.feats) for t in mine if t.cls == 'ok' and not t.default]
@@ -399,8 +399,9 @@ def judge_builds(chk, tasks, feats_of):
                 groups.setdefault((t.sig['error_code'], t.sig['error_file'], t.sig['error_msg']), []).append(t)
         for (code, file, msg), ts in groups.items():
             ts.sort(key=lambda t: (len(t.feats), t.feats))
-            cond = minimal_condition(feats_of[lib], [set(t.feats) for t in ts if not t.default] or [set(ts[0].eff)], passing)
+            cond = condition or minimal_condition(feats_of[lib], [set(t.feats) for t in ts if not t.default] or [set(ts[0].eff)], passing)
             t = ts[0]
+            chk.reported = getattr(chk, 'reported', set()) | {(code, file, msg)}
             obs = {'check': 'build', 'library': lib, 'error_code': code, 'error_file': file, 'error_msg': msg,
                    'condition': cond or ('exactly ' + ','.join(t.feats))}
             r = chk.violation(obs, {
@@ -540,7 +541,9 @@ def judge_driver_builds(chk, dtasks):
             chk.inconclusive.append(f'{t.label()} does not build: {str(t.sig)[:400]}')
             continue
         cls, sig = classify(t.rc, t.err)
-        if cls == 'compile':
+        if cls == 'compile' and (sig['error_code'], sig['error_file'], sig['error_msg']) in getattr(chk, 'reported', ()):
+            chk.count('driver_build_failed_for_a_reported_library_error')     # same defect, already a violation of the build half
+        elif cls == 'compile':
             lib = sig['error_file'].split(os.sep)[0]
             obs = {'check': 'build', 'library': lib, 'error_code': sig['error_code'], 'error_file': sig['error_file'],
                    'error_msg': sig['error_msg'], 'condition': 'codec_driver ' + ','.join(t.feats)}
@@ -563,7 +566,7 @@ def replay_run(chk, rp):
         run_pool([t], nw)
         if t.cls == 'compile':
             common.log('\n\n'.join(error_blocks(t.err))[:4000])
-        judge_builds(chk, [t], feats_of)
+        judge_builds(chk, [t], feats_of, condition=(rp.get('observation') or {}).get('condition'))
         chk.distinct.add(('replay',))
         return
     if rp.get('kind') == 'behaviour':
